@@ -7,7 +7,7 @@
    schedule of all the goroutines holding ends of the streams; the arguments [ch] of
    ORecv / OFwd are the outcomes of Go's [select]s.  "forall fuel ops" therefore quantifies
    over every tree, every item sequence, every capacity and every interleaving. *)
-From Eino Require Import Base.Util Model.Stream Proofs.Stream Proofs.StreamRel Proofs.StreamWf Proofs.StreamClose Proofs.StreamLink Proofs.StreamSem Proofs.StreamEof Proofs.StreamOnce Proofs.StreamTrace Proofs.StreamRank Proofs.StreamTotal Proofs.StreamProg.
+From Eino Require Import Base.Util Model.Stream Proofs.Stream Proofs.StreamRel Proofs.StreamWf Proofs.StreamClose Proofs.StreamLink Proofs.StreamSem Proofs.StreamEof Proofs.StreamOnce Proofs.StreamTrace Proofs.StreamRank Proofs.StreamTotal Proofs.StreamProg Proofs.StreamOwned.
 
 (* ------------------------------------------------------------------ base streams *)
 
@@ -318,6 +318,29 @@ Theorem forwarder_terminates_on_close : forall fuel G k F d x ch,
 Proof. exact forwarder_stops_when_told. Qed.
 Print Assumptions forwarder_terminates_on_close.
 
+(* every_reference_owned: in every reachable state every base stream and every child slot of
+   every copy parent is referenced by a reader of the state (with ownership_linear: by exactly
+   one) — nothing is orphaned by Copy / Merge / Convert. *)
+Theorem every_reference_owned : forall fuel ops bs G, run fuel init_state ops = (bs, G) ->
+  (forall sid, sid < List.length (streams (st_store G)) -> In (RS sid) (all_refs G))
+  /\ (forall q Q i, nth_error (parents (st_store G)) q = Some Q -> i < List.length (p_cur Q) ->
+         In (RC q i) (all_refs G)).
+Proof. exact reachable_covers. Qed.
+Print Assumptions every_reference_owned.
+
+(* source_closed_exactly_once: when user code has closed every reader it still holds and every
+   forwarder goroutine has finished, every base stream — the pipes, the streams fed by
+   forwarders, the stream a merge builds from arrays — has been receive-closed exactly once and
+   every copy parent has closed its source exactly once (what the concurrent tier observes at
+   the end of every case through the accounting hook). *)
+Theorem source_closed_exactly_once : forall fuel ops bs G,
+  run fuel init_state ops = (bs, G) -> legal_run2 fuel ops -> all_done G ->
+  (forall sid s, nth_error (streams (st_store G)) sid = Some s -> s_rclosed s = 1)
+  /\ (forall q Q, nth_error (parents (st_store G)) q = Some Q ->
+         p_closed Q = List.length (p_cur Q) /\ p_srcclosed Q = 1).
+Proof. exact run_all_done_closed_once. Qed.
+Print Assumptions source_closed_exactly_once.
+
 (* ------------------------------------------------------------------ no deadlock among the library's goroutines *)
 
 (* recv_block_drained: a Recv that would block (the model's PBlock: the Go call parks) leaves the
@@ -412,6 +435,9 @@ Proof. vm_compute. reflexivity. Qed.
    from the pipe (stream 0) is closed: copy 2 by the user, copy 3 by the finished forwarder *)
 Example ex_legal2 : legal_run2 50 ex_ops.
 Proof. apply run_legal2b_sound. vm_compute. reflexivity. Qed.
+
+Example ex_all_done : all_done (snd (run 50 init_state ex_ops)).
+Proof. apply all_doneb_sound. vm_compute. reflexivity. Qed.
 
 Example ex_all_closed : AllClosed (snd (run 50 init_state ex_ops)) (RS 0).
 Proof. apply (all_closedb_sound 5). vm_compute. reflexivity. Qed.
